@@ -147,6 +147,7 @@ type result struct {
 	toks       []string // the script with the hints actually observed
 	obs        string
 	suspicious bool // a frame arrived where the schedule does not expect one (timing jitter or a defect)
+	why        string
 	envOffers  int  // offer changes made by the session itself (Parse), reported as O events
 	dur        time.Duration
 }
@@ -182,6 +183,43 @@ func execScript(args []string) (res result) {
 		go session.Close() // sleeps 1 s
 	}()
 	start := time.Now()
+	// timed scripts only make sense while this process gets scheduled promptly: a probe goroutine measures
+	// how much a 5 ms sleep oversleeps; a stall above 250 ms voids the run (it is repeated by runCase)
+	timedScript := false
+	for _, t := range args[1:] {
+		if strings.HasPrefix(t, "@") {
+			timedScript = true
+		}
+	}
+	stopProbe := make(chan struct{})
+	var maxStall time.Duration
+	var probeDone sync.WaitGroup
+	if timedScript {
+		probeDone.Add(1)
+		go func() {
+			defer probeDone.Done()
+			for {
+				select {
+				case <-stopProbe:
+					return
+				default:
+				}
+				t0 := time.Now()
+				time.Sleep(5 * time.Millisecond)
+				if d := time.Since(t0) - 5*time.Millisecond; d > maxStall {
+					maxStall = d
+				}
+			}
+		}()
+	}
+	defer func() {
+		close(stopProbe)
+		probeDone.Wait()
+		if maxStall > 250*time.Millisecond {
+			res.suspicious = true
+			res.why += "stall "
+		}
+	}()
 	var obs []string
 	toks := []string{args[0]}
 	var lastAt time.Duration = -1 // schedule time of the most recent @ token not yet consumed by a W
@@ -284,8 +322,11 @@ func execScript(args []string) (res result) {
 			// one loop iteration: its frame (if any) shows up by itself
 			if closed {
 				time.Sleep(2 * time.Millisecond)
+			} else if lastAt >= 0 {
+				waitFrame(conn, 450*time.Millisecond) // ticker wake-up: listen from 150 ms before to 300 ms after the tick
+				time.Sleep(2 * time.Millisecond)
 			} else {
-				waitFrame(conn, 450*time.Millisecond)
+				waitFrame(conn, 3*time.Second) // first iteration of a new goroutine: immediate unless the machine stalls
 				time.Sleep(2 * time.Millisecond)
 			}
 			fs, ts := conn.TakeTimed()
@@ -293,6 +334,7 @@ func execScript(args []string) (res result) {
 				// ticker wake-up scheduled 150 ms after the @ token: the frame must not come early
 				if ts[0].Sub(start) < lastAt+50*time.Millisecond {
 					res.suspicious = true
+					res.why += "early "
 				}
 			}
 			lastAt = -1
@@ -314,6 +356,7 @@ func execScript(args []string) (res result) {
 	if fs := take(); len(fs) > 0 {
 		obs = append(obs, "stray:"+showOut(fs))
 		res.suspicious = true
+		res.why += "stray "
 	}
 	res.toks = toks
 	res.obs = strings.Join(obs, "/")
@@ -321,6 +364,10 @@ func execScript(args []string) (res result) {
 		res.obs = "-"
 	}
 	res.dur = time.Since(start)
+	if !timedScript && res.dur > 4*time.Second {
+		res.suspicious = true // a 6 s ticker may have fired inside an unscheduled script: repeat
+		res.why += "slow "
+	}
 	return res
 }
 
@@ -440,6 +487,15 @@ func runCase(r *lib.Run, script []string, tries int) result {
 			break
 		}
 		r.Stat("retry.suspicious-timing", 1)
+		for _, w := range strings.Fields(res.why) {
+			r.Stat("retry.why."+w, 1)
+		}
+	}
+	if res.suspicious && strings.TrimSpace(res.why) != "" && strings.Trim(res.why, "stal ") == "" {
+		// every attempt hit a scheduling stall and nothing else was odd: the machine, not the handler, was
+		// observed; the case is dropped (and counted) rather than compared
+		r.Stat("dropped.persistent-stall", 1)
+		return res
 	}
 	r.Case("seq", res.toks, res.obs)
 	return res
@@ -659,7 +715,7 @@ func main() {
 		wg.Add(1)
 		go func(script []string) {
 			defer wg.Done()
-			res := runCase(r, script, 3)
+			res := runCase(r, script, 4)
 			r.Stat("class.timed", 1)
 			if res.suspicious {
 				r.Stat("timed.suspicious-after-retries", 1)
@@ -672,7 +728,7 @@ func main() {
 		wg.Add(1)
 		go func(script []string) {
 			defer wg.Done()
-			runCase(r, script, 3)
+			runCase(r, script, 4)
 			r.Stat("class.timed-directed", 1)
 		}(script)
 	}
@@ -727,11 +783,7 @@ func main() {
 		go func() {
 			defer wg2.Done()
 			for s := range jobs {
-				res := runCase(r, s, 1)
-				if res.dur > 4*time.Second {
-					// a 6 s ticker may have fired inside an "immediate" script: the schedule assumption is void
-					r.Stat("immediate.too-slow", 1)
-				}
+				res := runCase(r, s, 3)
 				r.Stat("class.immediate", 1)
 				r.Stat("env.offer-changed-by-parse", int64(res.envOffers))
 			}
